@@ -434,15 +434,29 @@ def check_file(path):
         return check_bytes(f.read())
 
 
-def xml_error_context(data, err, width=60):
+def xml_error_context(data, err, width=70):
     """text around the position named by an expat error message ('...: line L, column C')"""
+    left, right = _split_at_error(data, err)
+    return (left[-width * 2:] + right[:width]) if (left or right) else ''
+
+
+def _split_at_error(data, err):
     import re
     m = re.search(r'line (\d+), column (\d+)', err or '')
     if not m:
-        return ''
+        return '', ''
     lines = data.split(b'\n')
     l, c = int(m.group(1)), int(m.group(2))
     if 1 <= l <= len(lines):
         s = lines[l - 1]
-        return s[max(0, c - width):c + width].decode('utf-8', 'replace')
-    return ''
+        return s[:c + 1].decode('utf-8', 'replace'), s[c + 1:].decode('utf-8', 'replace')
+    return '', ''
+
+
+def xml_culprit(data, err):
+    """'<element>.<attribute>' the parse error position falls into (the unescaped attribute)"""
+    import re
+    left, _right = _split_at_error(data, err)
+    els = re.findall(r'<([\w-]+)[\s>]', left)
+    attrs = re.findall(r'([\w-]+)="', left)
+    return '%s.%s' % (els[-1] if els else '?', attrs[-1] if attrs else '?')
